@@ -324,7 +324,7 @@ inline bool makeSource(XEnv& env, const std::string& form, const std::string& do
                 BuilderFeeder bf(h.builder->getContentHandler(), h.builder->getLexicalHandler());
                 rd->setFeature(xercesc::XMLUni::fgSAX2CoreNameSpaces, true); rd->setFeature(xercesc::XMLUni::fgSAX2CoreNameSpacePrefixes, true);
                 rd->setFeature(xercesc::XMLUni::fgXercesLoadExternalDTD, false); rd->setFeature(xercesc::XMLUni::fgSAX2CoreValidation, false); rd->setFeature(xercesc::XMLUni::fgXercesDynamic, false);
-                rd->setContentHandler(&bf); rd->setLexicalHandler(&bf); rd->setErrorHandler(&bf);
+                rd->setContentHandler(&bf); rd->setLexicalHandler(&bf); rd->setErrorHandler(&bf); rd->setDTDHandler(h.builder->getDTDHandler());   // unparsed entities reach the builder through its DTD handler
                 SimInputSource src(seen, f, sysId, &env.fs.stats);
                 rd->parse(src);
                 h.ps = h.builder;
